@@ -202,6 +202,10 @@ func (r *rng) gcSteps(est int64) []int64 {
 // built: scenario C is then not generated.
 var cliEnabled = true
 
+// knobEnabled is cleared when DefaultBlockSize could not be made a variable in
+// this tree: the C18 "parse" run kind is then not generated.
+var knobEnabled = true
+
 var cliFlagSets = [][]string{{"-pb"}, {"-d"}, {"-r"}, {"-e"}, {"-p", "-e"}, {"-d", "-r"}, {"-pb", "-d"}, {"-p", "-e", "-r", "-d"}, {"-pb", "-e", "-r"}, {"-p"}, {}}
 var cliVersions = []string{"", "", "", "7.4", "7.0", "5.6", "7.2"}
 
@@ -310,12 +314,23 @@ func genC11(c *corpus, seed uint64) *scn.Scenario {
 		s.Inputs = append(s.Inputs, c.inputT(r, pLarge, theme))
 	}
 	shareAll := r.chance(50)
+	opFaults := r.chance(30) // swarm: in some runs operations are aborted by their writer
 	for t := 0; t < nt; t++ {
 		var task scn.Task
 		for k := 1 + r.n(maxPipes); k > 0; k-- {
 			p := scn.Pipeline{Input: r.n(ni), ShareVersion: shareAll || r.chance(30)}
 			for o := r.n(7); o > 0; o-- {
-				p.Ops = append(p.Ops, scn.Op{Kind: c11Ops[r.n(len(c11Ops))]})
+				op := scn.Op{Kind: c11Ops[r.n(len(c11Ops))]}
+				if opFaults && r.chance(25) {
+					// the operation is cut short by its writer (or, for traverse, by
+					// its visitor); the reference run meets the same fault
+					if op.Kind == "traverse" {
+						op.Fault = &scn.WFault{Kind: "abort", At: r.n(60)}
+					} else if op.Kind != "resolve" {
+						op.Fault = &scn.WFault{Kind: wfaults[r.n(len(wfaults))], At: r.n(400)}
+					}
+				}
+				p.Ops = append(p.Ops, op)
 			}
 			task.Pipelines = append(task.Pipelines, p)
 		}
@@ -407,7 +422,7 @@ var parseKnobs = []int{1, 2, 3, 4, 5, 7, 8, 13, 16, 64, 100, 255, 1000, 1023, 10
 func genC18(c *corpus, seed uint64) *scn.Scenario {
 	r := &rng{seed}
 	s := &scn.Scenario{Prop: "C18", RunSeed: seed}
-	if r.chance(30) {
+	if r.chance(30) && knobEnabled {
 		s.Kind = "parse"
 		nt := 1 + r.n(3)
 		ni := 1 + r.n(3)
